@@ -66,6 +66,8 @@ package memory
 
 //@ func (*memoryStore).AddNodeBalance
 //@ property C01 C10 C12
+//@ ensures [does-not-adopt-the-callers-digits] {C10} (forall k store.Account :: bigbuf(s.balances[k].Credit) == old(bigbuf(s.balances[k].Credit)) || bigbuf(s.balances[k].Credit) != bigbuf(credit))
+//@        && (forall n store.NodeID :: bigbuf(s.trials[n].Credit) == old(bigbuf(s.trials[n].Credit)) || bigbuf(s.trials[n].Credit) != bigbuf(credit))
 //@ implements store.BalanceStore.AddNodeBalance
 //@ requires wf(s) && !held(s.mu)
 //@ ensures [wf] wf(s) && !held(s.mu)
@@ -81,6 +83,8 @@ package memory
 
 //@ func (*memoryStore).AddAccountBalance
 //@ property C01 C10 C12
+//@ ensures [does-not-adopt-the-callers-digits] {C10} (forall k store.Account :: bigbuf(s.balances[k].Credit) == old(bigbuf(s.balances[k].Credit)) || bigbuf(s.balances[k].Credit) != bigbuf(credit))
+//@        && (forall n store.NodeID :: bigbuf(s.trials[n].Credit) == old(bigbuf(s.trials[n].Credit)) || bigbuf(s.trials[n].Credit) != bigbuf(credit))
 //@ implements store.BalanceStore.AddAccountBalance
 //@ requires wf(s) && !held(s.mu)
 //@ ensures [wf] wf(s) && !held(s.mu)
@@ -117,13 +121,13 @@ package memory
 //@ ensures [wf] wf(s) && !held(s.mu)
 
 //@ func (*memoryStore).SetNode
-//@ property C10 C12
+//@ property C02 C10 C12
 //@ implements store.PoolStore.SetNode
 //@ requires wf(s) && !held(s.mu)
 //@ ensures [wf] wf(s) && !held(s.mu)
 
 //@ func (*memoryStore).UpdateNodePeers
-//@ property C11 C10 C12
+//@ property C02 C11 C10 C12
 //@ implements store.PoolStore.UpdateNodePeers
 //@ requires wf(s) && !held(s.mu)
 //@ ensures [wf] wf(s) && !held(s.mu)
